@@ -62,6 +62,7 @@ class Lexer(object):
 
     @TOKEN(r'("(\\.|[^"\\])*")|(\'(\\.|[^\'\\])*\')')
     def t_STRING(self, t):
+        t.lexer.lineno += t.value.count("\n")
         t.value = t.value[1:-1].encode("latin-1", "backslashreplace").decode("unicode_escape")
         return t
 
